@@ -140,13 +140,14 @@ func cacheLookupRules(c *Ctx, rule string) {
 			bt := ff.term(base)
 			okGuard := false
 			if st != nil && bt != nil {
-				want := TField(bt, fSeq).String()
+				wantT := TField(bt, fSeq)
+				want := wantT.String()
 				for _, f := range st.Facts() {
 					if f.Op != "eq" || !f.Pos || f.B == nil {
 						continue
 					}
 					for _, pr := range [][2]*Term{{f.A, f.B}, {f.B, f.A}} {
-						if pr[0].String() == want && pr[1].K == 'v' {
+						if (pr[0].String() == want || (pr[0].K == 'f' && pr[0].Obj == types.Object(fSeq) && st.EqualUnder(pr[0], wantT))) && pr[1].K == 'v' {
 							for _, po := range params {
 								if po != nil && pr[1].Obj == po {
 									okGuard = true
@@ -209,6 +210,9 @@ func cacheLookupRules(c *Ctx, rule string) {
 			rs := asScanLoop(g.Pkg.TypesInfo, n)
 			if rs == nil {
 				if fr, isFor := n.(*ast.ForStmt); isFor {
+					if p.isInlineWrapper(g.File, fr) {
+						return true
+					}
 					nloops++
 					okScan, why = false, "the loop at "+p.PosStr(fr.Pos())+", which does not visit every slot"
 				}
@@ -219,12 +223,11 @@ func cacheLookupRules(c *Ctx, rule string) {
 				switch x := m.(type) {
 				case *ast.FuncLit:
 					return false
-				case *ast.BranchStmt:
-					if x.Tok != token.CONTINUE {
-						okScan, why = false, "a "+x.Tok.String()+" at "+p.PosStr(x.Pos())
+				case *ast.BranchStmt, *ast.ReturnStmt:
+					if br, isBr := x.(*ast.BranchStmt); isBr && br.Tok == token.CONTINUE {
+						return true
 					}
-				case *ast.ReturnStmt:
-					// a hit: unreachable unless an edge established slot.seqno == seqno
+					// the scan is left: a hit, unreachable unless an edge established slot.seqno == seqno
 					hit := !ff.ReachableAvoiding(x, func(f *Fact, st *State) bool {
 						if f.Op != "eq" || !f.Pos || f.B == nil {
 							return false
@@ -241,7 +244,7 @@ func cacheLookupRules(c *Ctx, rule string) {
 						return false
 					})
 					if !hit {
-						okScan, why = false, "a return at "+p.PosStr(x.Pos())+" that is not the hit"
+						okScan, why = false, "a jump at "+p.PosStr(x.Pos())+" that is not the hit"
 					}
 				}
 				return true
